@@ -414,6 +414,12 @@ def import_cases() -> list:
                   "    while ($n < 3) {\n        spin();\n    }\n    done_r();\n}\n")
     case("same-label-name-in-two-macros", {MAIN: same_label + "def 0 {\n    ~wait_for_flag();\n    mid();\n    ~retry($G);\n    ~wait_for_flag();\n    ~retry(2);\n    hold;\n}\n"})
     case("same-label-name-in-two-macros-other-order", {MAIN: same_label + "def 0 {\n    ~retry(1);\n    ~wait_for_flag();\n    end;\n}\ndef 1 {\n    ~wait_for_flag();\n    ~retry($H);\n}\n"})
+    # substitution is SIMULTANEOUS: an argument that is itself a variable of the calling macro, named like another parameter of the
+    # called macro, is not substituted a second time
+    swap = ("macro show($x, $y) {\n    out($x, $y);\n    $x = $y;\n}\nmacro swapped($x, $y) {\n    ~show($y, $x);\n    again($x, $y);\n}\n"
+            "macro rot($a, $b, $c) {\n    ~rot3($b, $c, $a);\n}\nmacro rot3($a, $b, $c) {\n    r($a, $b, $c);\n}\n")
+    case("arguments-named-like-other-parameters", {MAIN: swap + "def 0 {\n    ~swapped(1, 2);\n    ~swapped($G, 'text');\n    ~rot(1, 2, 3);\n    hold;\n}\n"})
+    case("arguments-named-like-other-parameters-2", {MAIN: swap + "def 0 {\n    ~rot($P, Position<'m', 1, 2>, 5);\n    ~show(7, 8);\n    ~swapped(CONST_Y, CONST_X);\n    end;\n}\n"})
     # clause (d): documented rejections
     case("missing-relative", {MAIN: _main(("./nope.exps",))}, expect="reject", family="reject")
     case("missing-lookup", {MAIN: _main(("nope.exps",)), "inc1/other.exps": _lib("x")}, ("inc1",), expect="reject", family="reject")
